@@ -194,7 +194,7 @@ std::string groupedInt64negToString( int64_t value, char group_char)
 {
 
    // convert into a positive value
-   const uint64_t  abs_value = -value;
+   const uint64_t  abs_value = 0 - static_cast< uint64_t>( value);
 
    // actually we create a string with result_len + 1
    // but then we would have to sub 1 again two times (so 1 add, 2 subs), so
@@ -259,7 +259,7 @@ int groupedInt64negToString( char* buffer, int64_t value, char group_char)
 {
 
    // convert into a positive value
-   const uint64_t  abs_value = -value;
+   const uint64_t  abs_value = 0 - static_cast< uint64_t>( value);
 
    // actually we create a string with result_len + 1
    // but then we would have to sub 1 again two times (so 1 add, 2 subs), so
